@@ -61,6 +61,26 @@ def applyEntry (O : Oracles) (cls : FieldDecl) (x : PyVal) : EntryOp → R PyVal
           (fun n => (n, (lookup n (instAttrs x)).getD .none)) ++ kw)
   | .castTo => construct O cls (setFields cls x)
 
+/-- the keyword arguments a rebuilding entry point hands to the constructor (`none` for the copying ones) -/
+def entryKw (cls : FieldDecl) (x : PyVal) : EntryOp → Option (List (String × PyVal))
+  | .copy => none
+  | .deepcopy => none
+  | .pickle => none
+  | .shallowClone kw => some (overrideKw (setFields cls x) kw)
+  | .fromOtherClass ignore kw =>
+    some (((fieldNames cls).filter (fun n => !ignore.contains n && (lookup n kw).isNone)).map
+          (fun n => (n, (lookup n (instAttrs x)).getD ((lookup n (classDefaults cls)).getD .none))) ++ kw)
+  | .fromMapping ignore kw =>
+    some (((fieldNames cls).filter (fun n => !ignore.contains n && (lookup n kw).isNone)).map
+          (fun n => (n, (lookup n (instAttrs x)).getD .none)) ++ kw)
+  | .castTo => some (setFields cls x)
+
+/-- every rebuilding entry point IS the constructor applied to `entryKw` -/
+theorem applyEntry_eq_construct (O : Oracles) (cls : FieldDecl) (x : PyVal) (op : EntryOp)
+    (kw : List (String × PyVal)) (h : entryKw cls x op = some kw) :
+    applyEntry O cls x op = construct O cls kw := by
+  cases op <;> simp only [entryKw, Option.some.injEq, reduceCtorEq] at h <;> subst h <;> rfl
+
 /-- apply a chain of entry points; the first failure aborts -/
 def runChain (O : Oracles) (cls : FieldDecl) : PyVal → List EntryOp → R PyVal
   | x, [] => .ok x
